@@ -73,7 +73,13 @@ declare -A CHECKS=(
  [C16-create-overwrites-warming-up-asset]="C16"
  [C18-import-overwrites-redelegation-queue-slot]="C18"
  [C12-reward-weight-uses-validator-shares]="C12 C13"
- [C02-complete-skips-zero-entry-keeps-index]="C02 C17"
+ [C13-redelegate-settles-validator-not-existing-position]="C13"
+ [C18-import-restarts-decay-clock]="C18"
+ [C15-complete-skips-second-source-of-fan-in]="C15"
+ [C10-redelegate-between-bonded-validators-skips-rebalance]="C10"
+ [C08-slash-rejects-fraction-one]="C08 C06"
+ [C07-slash-skips-entry-completing-at-block-time]="C07"
+ [C02-complete-skips-zero-entry-keeps-index]="C02"
  [C06-slash-redelegation-burns-validator-shares]="C06 C03 C07"
  [C09-transfer-truncates-deduction]="C09 C01"
  [C14-zero-weight-update-skips-settlement]="C14 C13"
